@@ -52,6 +52,20 @@ KNOWN_IMPRECISION = {
 }
 
 
+# entry points that cannot return normally in this environment / by design (they still get snapshot checks)
+MAY_ALWAYS_RAISE = {
+    'copulas.visualization.dist_1d': 'installed plotly has no figure_factory.create_distplot (AttributeError)',
+    'copulas.visualization.compare_1d': 'installed plotly has no figure_factory.create_distplot (AttributeError)',
+    'copulas.bivariate.independence.Independence.percent_point': 'check_fit: theta is never set (NotFittedError)',
+    'copulas.bivariate.base.Bivariate.probability_density': 'abstract (NotImplementedError)',
+    'copulas.bivariate.base.Bivariate.cumulative_distribution': 'abstract (NotImplementedError)',
+    'copulas.multivariate.base.Multivariate.probability_density': 'abstract (NotImplementedError)',
+    'copulas.multivariate.base.Multivariate.cumulative_distribution': 'abstract (NotImplementedError)',
+    'copulas.univariate.base.Univariate.log_probability_density':
+        'selected GaussianKDE: gaussian_kde.logpdf(**params) is a TypeError',
+}
+
+
 def short(key):
     ps = key.split('.')
     if ps[-2][:1].isupper():
@@ -279,8 +293,10 @@ class Gen:
 
         def build():
             if cname == 'Bivariate':
-                m = Bivariate(copula_type='clayton')
-                m.theta, m.tau = 2.0, 0.5
+                # the base-class implementations (generic brentq inverse, finite-difference derivative) are
+                # exercised as unbound methods on a Frank instance, see `bound`
+                m = Frank()
+                m.theta, m.tau = 5.0, 0.4565
             elif cname == 'Independence':
                 m = Independence()
                 m.tau = 0.0
@@ -345,8 +361,21 @@ class Gen:
     def mk(self, entry, tag, label, make_fn, make_args, tracked):
         def fresh_args():
             # fresh argument objects for every call sequence (a mutated object must never be handed out again)
-            return {k: (v.make() if isinstance(v, AsView) else v) for k, v in copy.deepcopy(make_args()).items()}
+            out = {k: (v.make() if isinstance(v, AsView) else v) for k, v in copy.deepcopy(make_args()).items()}
+            for v in out.values():
+                if isinstance(v, (TList, TDict)):
+                    v.__dict__['_log'] = []          # construction / deepcopy is not a mutation by the library
+            return out
         return Case(entry, tag, label, make_fn, fresh_args, tuple(tracked))
+
+    def bound(self, cname, meth):
+        """the method of a fresh model; for the base class: the BASE implementation on a concrete instance"""
+        m = self.biv_model(cname)
+        if cname == 'Bivariate':
+            from copulas.bivariate import Bivariate
+            base = getattr(Bivariate, meth)
+            return lambda *a, **k: base(m, *a, **k)
+        return getattr(m, meth)
 
     def bivariate_cases(self, entry, cname, meth):
         tag = f'{cname}.{meth}'
@@ -371,15 +400,15 @@ class Gen:
         elif meth in ('probability_density', 'pdf', 'log_probability_density', 'cumulative_distribution', 'cdf',
                       'partial_derivative'):
             for kind, a in self.array_kinds(U):
-                yield self.mk(entry, tag, kind, lambda: getattr(self.biv_model(cname), meth),
+                yield self.mk(entry, tag, kind, lambda: self.bound(cname, meth),
                               lambda a=a: {'X': a}, ['X'])
         elif meth in ('percent_point', 'ppf'):
             y, v = U[:8, 0], U[:8, 1]
             for (k1, a), (k2, b) in zip(self.vec_kinds(y), self.vec_kinds(v)):
-                yield self.mk(entry, tag, f'{k1}', lambda: getattr(self.biv_model(cname), meth),
+                yield self.mk(entry, tag, f'{k1}', lambda: self.bound(cname, meth),
                               lambda a=a, b=b: {'y': a, 'V': b}, ['y', 'V'])
         elif meth == 'sample':
-            yield self.mk(entry, tag, 'n', lambda: getattr(self.biv_model(cname), meth), lambda: {'n_samples': 5}, [])
+            yield self.mk(entry, tag, 'n', lambda: self.bound(cname, meth), lambda: {'n_samples': 5}, [])
 
     def univariate_cases(self, entry, cname, meth):
         tag = f'{cname}.{meth}'
@@ -568,13 +597,15 @@ WRITE_MSGS = ('assignment destination is read-only', 'output array is read-only'
               'sort array is read-only', 'cannot set WRITEABLE')
 
 
-def call(fn, args):
+def call(make_fn, args):
+    """build the callable (fresh model) and call it; exceptions of either step are the result"""
     with warnings.catch_warnings():
         warnings.simplefilter('ignore')
         st = np.random.get_state()
         np.random.seed(20240920)
         try:
             with np.errstate(all='ignore'):
+                fn = make_fn()
                 return ('ok', fn(**args))
         except Exception as e:      # noqa
             return ('exc', vc.exc_kind(e), str(e)[:120])
@@ -586,7 +617,7 @@ def run_case(case):
     """-> dict(mutated=[param names], evidence={param: text}, reuse=None|text, reached=bool)"""
     args = case.make_args()
     before = copy.deepcopy(args)
-    r1 = call(case.make_fn(), args)
+    r1 = call(case.make_fn, args)
     evidence = {}
     for name in case.tracked:
         d = diff(before[name], args[name], name)
@@ -596,7 +627,7 @@ def run_case(case):
             evidence[name] = f'{name}: mutating calls {logged(args[name])[:4]} (content restored or unchanged)'
     # second identical call on a fresh model, re-using the same argument objects
     reuse = None
-    r2 = call(case.make_fn(), args)
+    r2 = call(case.make_fn, args)
     if not evidence:
         if r1[0] != r2[0] or (r1[0] == 'exc' and r1[1] != r2[1]):
             reuse = f'first call {r1[:2]}, second call {r2[:2]}'
@@ -612,7 +643,7 @@ def run_case(case):
         arr = np.array(probe[name], copy=True, order='K')
         arr.setflags(write=False)
         probe[name] = arr
-        r3 = call(case.make_fn(), probe)
+        r3 = call(case.make_fn, probe)
         if r3[0] == 'exc' and any(m in r3[2] for m in WRITE_MSGS) and not (r1[0] == 'exc' and r1[2] == r3[2]):
             evidence[name] = f'{name}: in-place write attempted on a read-only array ({r3[2][:60]})'
     return {'mutated': sorted(evidence, key=list(case.tracked).index), 'evidence': evidence, 'reuse': reuse,
@@ -660,12 +691,13 @@ def sweep(ctx, stream, rounds, only=None):
             if only and e['name'] not in only:
                 continue
             o = obs.setdefault(e['name'], {'mutated': collections.OrderedDict(), 'reuse': [], 'cases': 0,
-                                           'reached': 0})
+                                           'reached': 0, 'ok': 0})
             for tag in e['tags']:
                 for case in g.cases(e['name'], tag):
                     res = run_case(case)
                     o['cases'] += 1
                     o['reached'] += bool(res['reached'])
+                    o['ok'] += res['result'] == 'ok'
                     ctx.case((case.entry, case.tag, case.label, stream, r), nontrivial=res['reached'])
                     ctx.count(f'dyn:{case.tag.split(".")[-1]}:{case.label.split("/")[-1]}')
                     ctx.count(f'dyn-result:{res["result"] if res["result"] != "ok" else "ok"}')
@@ -707,8 +739,10 @@ def run(ctx, lean):
     ctx.ob('corr:decode+flatten', bad is None, 'tie', bad or f'{len(an.entries)} entry points: Lean flatten of the '
            'decoded module = independent Python linking of the IR')
     # ---- (b) dynamic validation
-    obs = sweep(ctx, 'tie', 1 * ctx.scale if ctx.scale > 1 else 1)
+    obs = sweep(ctx, 'tie', 1)
+    ctx._c20_obs = obs
     subset_bad, accept_bad, static_only, reuse_bad, imprecise = None, None, [], None, []
+    uncovered = []
     rejected = []
     for name, s in sv.items():
         o = obs.get(name, {'mutated': {}, 'reuse': [], 'cases': 0})
@@ -734,8 +768,8 @@ def run(ctx, lean):
                                         'path': gen_effects.witness(an, e['fn'], list(pv))})
         if o['reuse'] and not seen and reuse_bad is None:
             reuse_bad = {'entry': name, 'case': o['reuse'][0][0], 'diff': o['reuse'][0][1]}
-        if o['cases'] == 0 and s['params']:
-            ctx.notes.append(f'no dynamic case for {name}')
+        if s['params'] and (o['cases'] == 0 or (o.get('ok', 0) == 0 and name not in MAY_ALWAYS_RAISE)):
+            uncovered.append({'entry': name, 'cases': o['cases'], 'returned_normally': o.get('ok', 0)})
     ctx.ob('corr:observed-mutations-within-may-write-set', subset_bad is None, 'tie', subset_bad or
            f'{sum(o["cases"] for o in obs.values())} calls on the real code with deep-snapshotted arguments')
     ctx.ob('corr:accepted-entry-points-do-not-mutate', accept_bad is None, 'tie', accept_bad or
@@ -743,6 +777,9 @@ def run(ctx, lean):
     ctx.ob('static:every-rejected-parameter-is-a-witnessed-mutation', not static_only, 'proof',
            static_only[:3] if static_only else
            f'rejected: {[(short(n), m) for n, m, _ in rejected]}; documented imprecision: {imprecise}')
+    ctx.ob('tie:dynamic-coverage', not uncovered, 'tie', uncovered[:4] if uncovered else
+           'every entry point with a tracked parameter returned normally in at least one snapshot case '
+           f'(documented exceptions: {sorted(short(k) for k in MAY_ALWAYS_RAISE)})')
     ctx.ob('corr:reuse-same-result', reuse_bad is None, 'tie', reuse_bad or
            'second identical call on a fresh model with the same argument objects: same result')
     # ---- histories: any sequence of the individually clean public calls on shared objects
@@ -766,7 +803,7 @@ def fig_traces(fig, dim):
     return out
 
 
-def plot_case(lean, fname, cols, real, synth, req):
+def plot_case(lean, fname, cols, real, synth, req, titled=False):
     import copulas.visualization as V
     dim = 2 if '2d' in fname else 3
     kind = 'scatter' if fname.startswith('scatter') else 'compare'
@@ -774,17 +811,19 @@ def plot_case(lean, fname, cols, real, synth, req):
         warnings.simplefilter('ignore')
         try:
             r_req = None if req is None else list(req)
+            title = 'T' if titled else None
             if kind == 'scatter':
-                fig = getattr(V, fname)(pd.DataFrame(real, columns=cols), r_req)
+                fig = getattr(V, fname)(pd.DataFrame(real, columns=cols), r_req, title)
             else:
-                fig = getattr(V, fname)(pd.DataFrame(real, columns=cols), pd.DataFrame(synth, columns=cols), r_req)
+                fig = getattr(V, fname)(pd.DataFrame(real, columns=cols), pd.DataFrame(synth, columns=cols), r_req,
+                                        title)
             got = ('ok', fig_traces(fig, dim))
         except Exception as e:   # noqa
             got = ('err', vc.exc_kind(e))
 
     def rows(a):
         return f'{len(a)} ' + ' '.join(vc.f2h(x) for r in a for x in r)
-    line = f'plot {dim} {kind} {len(cols)} {" ".join(cols)} '
+    line = f'plot {dim} {kind} {int(titled)} {len(cols)} {" ".join(cols)} '
     line += '-1 ' if req is None else f'{len(req)} {" ".join(req)} '
     line += rows(real) + (' ' + rows(synth) if kind == 'compare' else '')
     ws = lean.ask(' '.join(line.split())).split()
@@ -841,11 +880,13 @@ def plots(ctx, lean):
                 rng.shuffle(req)
             else:
                 req = None
-            ok, got, want = plot_case(lean, fname, cols, real, synth, req)
-            ctx.case((fname, width, nr, ns, tuple(req) if req is not None else None, k), nontrivial=nr + ns > 0)
+            titled = rng.random() < 0.4
+            ok, got, want = plot_case(lean, fname, cols, real, synth, req, titled)
+            ctx.case((fname, width, nr, ns, tuple(req) if req is not None else None, titled, k),
+                     nontrivial=nr + ns > 0)
             ctx.count(f'plot:{fname}:{got[0] if got[0] == "ok" else got[1]}')
             if not ok and bad is None:
-                bad = {'builder': fname, 'columns': cols, 'request': req, 'real': real, 'synth': synth,
+                bad = {'builder': fname, 'columns': cols, 'request': req, 'titled': titled, 'real': real, 'synth': synth,
                        'figure': got, 'model': want}
     ctx.ob('corr:plots-figure-data-vs-model', bad is None, 'tie', bad or 'Figure.data = traces predicted by the model')
 
@@ -853,7 +894,10 @@ def plots(ctx, lean):
 # ----------------------------------------------------------------------------------- oracle on the real code
 def search(ctx, deep):
     """snapshot / compare on the real code only (no Lean): every mutated argument is a failing input"""
-    obs = sweep(ctx, 'search', (3 * ctx.scale if deep else 1))
+    if not deep and getattr(ctx, '_c20_obs', None) is not None:
+        obs = ctx._c20_obs          # quick tier: the observations of the tie ARE calls on the real code
+    else:
+        obs = sweep(ctx, 'search', 4 if deep else 1)
     found, calls = 0, 0
     known = {k['class'] for k in vc.load_known().get('findings', []) if k['property'] == ctx.prop}
     hit = set()
